@@ -35,6 +35,73 @@ func runC32(w *World, r *Report) {
 		orderTaint(w, r, rp, fd, "R-C32-1", fd.Name.Name == "FindRoute")
 	}
 
+	// ---- R-C32-3: no selection inside the map loop itself
+	r.Rule("R-C32-3", "FindRoute never returns (or breaks out with) a route while it is still ranging over the route map: a choice made inside the map loop is made in map-iteration order", 1)
+
+	if fd := w.funcDecl(rp, "Router.FindRoute"); fd == nil {
+		r.Anchor("R-C32-3", "router.Router.FindRoute")
+	} else {
+		info := rp.TypesInfo
+		n := 0
+
+		ast.Inspect(fd.Body, func(nd ast.Node) bool {
+			rs, ok := nd.(*ast.RangeStmt)
+			if !ok {
+				return true
+			}
+
+			tv, ok := info.Types[rs.X]
+			if !ok {
+				return true
+			}
+
+			if _, isMap := tv.Type.Underlying().(*types.Map); !isMap {
+				return true
+			}
+
+			n++
+
+			key := "router.Router.FindRoute|range " + types.ExprString(rs.X)
+			bad := token.NoPos
+
+			var walk func(nd ast.Node, depth int)
+
+			walk = func(nd ast.Node, depth int) {
+				ast.Inspect(nd, func(x ast.Node) bool {
+					switch y := x.(type) {
+					case *ast.FuncLit:
+						return false
+					case *ast.ReturnStmt:
+						if !bad.IsValid() {
+							bad = y.Pos()
+						}
+					case *ast.BranchStmt:
+						// a break that leaves the map loop (not an inner loop/switch)
+						if y.Tok == token.BREAK && y.Label != nil && !bad.IsValid() {
+							bad = y.Pos()
+						}
+					}
+
+					return true
+				})
+			}
+
+			walk(rs.Body, 0)
+
+			if bad.IsValid() {
+				r.Violate("R-C32-3", key, w.pos(bad), "a route is chosen (return / labelled break) from inside the loop over the route map: when several routes qualify, which one wins depends on Go's randomised map order")
+			} else {
+				r.Discharge("R-C32-3", key, w.pos(rs.Pos()), "the map loop only collects candidates")
+			}
+
+			return true
+		})
+
+		if n == 0 {
+			r.Anchor("R-C32-3", "range over the route map in FindRoute")
+		}
+	}
+
 	// ---- R-C32-2
 	fd := w.funcDecl(rp, "Router.FindRoute")
 	if fd == nil {
